@@ -401,25 +401,4 @@ pub fn step_name(s: &Step) -> &'static str {
     }
 }
 
-/// does any element of a reference tensor violate the in-domain value range of `op`?
-pub fn in_domain(op: &OpKind, operands: &[&T]) -> bool {
-    use OpKind::*;
-    let rng = |t: &T, lo: f64, hi: f64| t.vals.iter().all(|x| x.v >= lo && x.v <= hi);
-    let absrng = |t: &T, lo: f64, hi: f64| t.vals.iter().all(|x| x.v.abs() >= lo && x.v.abs() <= hi);
-    match op {
-        Div => absrng(operands[1], 0.25, 1e4),
-        Recip => absrng(operands[0], 0.25, 1e4),
-        Ln => rng(operands[0], 0.25, 1e4),
-        Exp | Softmax | Sigmoid => rng(operands[0], -3.0, 3.0),
-        Powf(e) => {
-            if *e == e.trunc() && *e >= 1.0 {
-                absrng(operands[0], 0.0, 16.0)
-            } else if *e == e.trunc() {
-                absrng(operands[0], 0.25, 16.0)
-            } else {
-                rng(operands[0], 0.25, 4.0)
-            }
-        }
-        _ => true,
-    }
-}
+pub use refmodel::ops::in_domain;
